@@ -460,6 +460,18 @@ impl<'a> Wire<'a> {
                 }
                 // v: tower of `total` variants
                 cases.push(("v", vtower(total), typed!(AnyVar)));
+                // the Param API's own variant type read through the typed API (`get::<params::Variant>()`), alone and inside
+                // typed containers
+                cases.push(("v", vtower(total), typed!(rustbus::params::Variant)));
+                {
+                    let t = vtower(total - 1);
+                    let mut b = u32b(bo, t.len() as u32).to_vec();
+                    b.extend_from_slice(&t);
+                    cases.push(("av", b, typed!(Vec<rustbus::params::Variant>)));
+                    let mut b = vec![9u8];
+                    b.extend_from_slice(&vtower(total - 1));
+                    cases.push(("(yv)", b, typed!((u8, rustbus::params::Variant))));
+                }
                 // av: one element
                 let t = vtower(total - 1);
                 let mut b = u32b(bo, t.len() as u32).to_vec();
@@ -949,6 +961,8 @@ pub fn run(cfg: &Cfg, mode: Mode) {
         w.run_param_stream(if cfg.thorough { 60_000 } else { 3_000 }, if cfg.thorough { 8 } else { 5 });
         if mode == Mode::C02 {
             w.run_unencodable(if cfg.thorough { 5000 } else { 400 });
+            let mut r2 = Prng::new(cfg.seed ^ 0x111f);
+            run_illformed_params(&mut w.out, &mut r2);
         }
         w.run_variant_sig_limits();
         if mode != Mode::C03 {
@@ -969,4 +983,208 @@ pub fn run(cfg: &Cfg, mode: Mode) {
         Mode::C03 => "valid encodings (catalogue + random Param trees) decoded by validate_raw, Param unmarshal and typed unmarshal; single-byte corruptions (+1, -1, +4, -4, ^0x80, :=0, :=0xFF, truncate at every position; an evenly spread sample when over the per-message cap) of pooled encodings up to 96 bytes; containers with 65..80 elements; the same bytes under the other byte order; random byte strings under random signatures; EVERY byte string up to length 4 (thorough: 5) over an 8-byte alphabet under 16 small types, both byte orders, offsets 0 and 1 (exhaustive); distinct by request text",
     };
     out.finish(rule, false);
+}
+
+// ---------------------------------------------------------------------------------------------------------------------
+// Param trees that have NO valid encoding although every leaf is fine: a variant whose recorded signature is not the type
+// of its value, empty structs, containers whose elements differ in type, values nested deeper than 64 levels - and, next
+// to them, the deepest values that ARE legal. Direct checks (no model involved for the ill-typed ones, the Val language
+// cannot even express most of them): the marshaller refuses without panicking and without leaving bytes behind; whatever
+// it does accept, the library's own validator and decoder accept too (what can be sent can be received).
+// ---------------------------------------------------------------------------------------------------------------------
+
+fn pv(sig: rustbus::signature::Type, value: rustbus::params::Param<'static, 'static>) -> rustbus::params::Param<'static, 'static> {
+    rustbus::params::Param::Container(rustbus::params::Container::Variant(Box::new(rustbus::params::Variant { sig, value })))
+}
+
+/// nesting levels a Param needs (array / struct / variant 1, dict 2), independent of the library
+fn param_depth(p: &rustbus::params::Param) -> usize {
+    use rustbus::params::{Container, Param};
+    match p {
+        Param::Base(_) => 0,
+        Param::Container(c) => match c {
+            Container::Array(a) => 1 + a.values.iter().map(param_depth).max().unwrap_or(0),
+            Container::ArrayRef(a) => 1 + a.values.iter().map(param_depth).max().unwrap_or(0),
+            Container::Struct(f) => 1 + f.iter().map(param_depth).max().unwrap_or(0),
+            Container::StructRef(f) => 1 + f.iter().map(param_depth).max().unwrap_or(0),
+            Container::Dict(d) => 2 + d.map.values().map(param_depth).max().unwrap_or(0),
+            Container::DictRef(d) => 2 + d.map.values().map(param_depth).max().unwrap_or(0),
+            Container::Variant(v) => 1 + param_depth(&v.value),
+        },
+    }
+}
+
+pub fn run_illformed_params(out: &mut Out, rng: &mut Prng) {
+    use rustbus::params::{Base, Container, Param};
+    use rustbus::signature::{self, Type};
+    let t = |s: &str| Type::parse_description(s).unwrap().remove(0);
+    let u = |n: u32| Param::Base(Base::Uint32(n));
+    let s = |x: &str| Param::Base(Base::String(x.to_string()));
+    let st = |v: Vec<Param<'static, 'static>>| Param::Container(Container::Struct(v));
+    let arr = |e: &str, v: Vec<Param<'static, 'static>>| Param::Container(Container::Array(rustbus::params::Array { element_sig: t(e), values: v }));
+    let dict = |k: signature::Base, vt: &str, kv: Vec<(Base<'static>, Param<'static, 'static>)>| {
+        Param::Container(Container::Dict(rustbus::params::Dict { key_sig: k, value_sig: t(vt), map: kv.into_iter().collect() }))
+    };
+    let good_var = |p: Param<'static, 'static>| Param::Container(Container::make_variant(p));
+    // (name, value, must be refused)
+    let mut cases: Vec<(String, Param<'static, 'static>, bool)> = Vec::new();
+    // 1. variants whose signature is not the type of the value
+    cases.push(("variant u holding a string".into(), pv(t("u"), s("xy")), true));
+    cases.push(("variant s holding a u32".into(), pv(t("s"), u(7)), true));
+    cases.push(("variant (us) holding (su)".into(), pv(t("(us)"), st(vec![s("a"), u(1)])), true));
+    cases.push(("variant au holding as".into(), pv(t("au"), arr("s", vec![s("a")])), true));
+    cases.push(("variant y holding a variant".into(), pv(t("y"), good_var(u(1))), true));
+    cases.push(("variant t holding a u32 (same alignment class, other width)".into(), pv(t("t"), u(1)), true));
+    cases.push(("struct with an ill-typed variant".into(), st(vec![u(1), pv(t("u"), s("xy"))]), true));
+    cases.push(("array of variants, the second ill-typed".into(), arr("v", vec![good_var(u(1)), pv(t("q"), u(2))]), true));
+    cases.push(("dict value an ill-typed variant".into(), dict(signature::Base::String, "v", vec![(Base::String("k".into()), pv(t("s"), u(2)))]), true));
+    cases.push(("variant in a variant, the inner ill-typed".into(), good_var(st(vec![u(1)])).clone(), false));
+    cases.push(("variant v holding an ill-typed variant".into(), pv(t("v"), pv(t("u"), s("z"))), true));
+    // 2. empty structs
+    cases.push(("empty struct".into(), st(vec![]), true));
+    cases.push(("struct holding an empty struct".into(), st(vec![u(1), st(vec![])]), true));
+    cases.push(("variant u holding an empty struct".into(), pv(t("u"), st(vec![])), true));
+    cases.push(("dict value an empty struct".into(), dict(signature::Base::Uint32, "u", vec![(Base::Uint32(1), st(vec![]))]), true));
+    cases.push(("array of u holding an empty struct".into(), arr("u", vec![st(vec![])]), true));
+    // 3. containers whose elements differ in type
+    cases.push(("array au with a string element".into(), arr("u", vec![u(1), s("x")]), true));
+    cases.push(("array a(u) with a (s) element".into(), arr("(u)", vec![st(vec![u(1)]), st(vec![s("x")])]), true));
+    cases.push(("dict a{us} with a string key".into(), dict(signature::Base::Uint32, "s", vec![(Base::String("k".into()), s("v"))]), true));
+    cases.push(("dict a{us} with a u32 value".into(), dict(signature::Base::Uint32, "s", vec![(Base::Uint32(1), u(2))]), true));
+    cases.push(("nested: array of arrays, inner element type differs".into(), arr("au", vec![arr("u", vec![u(1)]), arr("s", vec![s("x")])]), true));
+    // 4. depth: towers of variants / variants around arrays, structs, dicts, from well inside to beyond the limit
+    for n in [1usize, 2, 31, 32, 33, 62, 63, 64, 65, 66, 80, 128, 300] {
+        let mut p = Param::Base(Base::Byte(9));
+        for _ in 0..n {
+            p = good_var(p);
+        }
+        cases.push((format!("tower of {} variants", n), p, n > 64));
+    }
+    for n in [10usize, 20, 21, 22, 23, 30] {
+        // a{sv} rounds: 3 levels each
+        let mut p = good_var(Param::Base(Base::Byte(1)));
+        for _ in 0..n {
+            p = good_var(dict(signature::Base::String, "v", vec![(Base::String("k".into()), p)]));
+        }
+        cases.push((format!("{} rounds of v:a{{sv}} around a variant", n), p.clone(), param_depth(&p) > 64));
+    }
+    for n in [15usize, 30, 31, 32, 33, 40] {
+        // (v) rounds: 2 levels each
+        let mut p = Param::Base(Base::Byte(1));
+        for _ in 0..n {
+            p = st(vec![good_var(p)]);
+        }
+        cases.push((format!("{} rounds of (v)", n), p.clone(), param_depth(&p) > 64));
+    }
+    for n in [20usize, 31, 32, 33] {
+        // av rounds with a sibling: the deep path is not the first element
+        let mut p = Param::Base(Base::Byte(1));
+        for _ in 0..n {
+            p = arr("v", vec![good_var(u(0)), good_var(p)]);
+        }
+        cases.push((format!("{} rounds of av (deep path second)", n), p.clone(), param_depth(&p) > 64));
+    }
+    for (name, p, must_refuse) in &cases {
+        for bo in ORDERS {
+            for phase in [0usize, 1, 4, 7] {
+                let depth = param_depth(p);
+                let tag = format!("{} [{} offset {} depth {}]", name, bo_name(bo), phase, depth);
+                let mut buf = vec![0xEEu8; phase];
+                let mut fds = Vec::new();
+                let r = guard(|| {
+                    let mut ctx = MarshalContext { buf: &mut buf, fds: &mut fds, byteorder: bo };
+                    rustbus::wire::marshal::container::marshal_param(p, &mut ctx)
+                });
+                match &r {
+                    Err(panic) => out.violation("illformed-param", &format!("marshal_param panicked on {}: {}", tag, panic)),
+                    Ok(Ok(())) if *must_refuse => {
+                        out.violation("illformed-param", &format!("a value without a valid encoding was marshalled: {} -> {}", tag, hex(&buf[phase..buf.len().min(phase + 40)])))
+                    }
+                    Ok(Err(e)) if !*must_refuse => out.violation("illformed-param", &format!("a legal value was refused: {}: {:?}", tag, e)),
+                    _ => {}
+                }
+                // through the body API: a refusal leaves nothing behind; an acceptance validates and reads back
+                let mut msg = MarshalledMessage::with_byteorder(bo);
+                for _ in 0..phase {
+                    msg.body.push_param(7u8).unwrap();
+                }
+                let before = (msg.get_buf().to_vec(), msg.get_sig().to_string());
+                let r2 = guard(|| msg.body.push_old_param(p));
+                match r2 {
+                    Err(panic) => out.violation("illformed-param", &format!("push_old_param panicked on {}: {}", tag, panic)),
+                    Ok(Err(_)) => {
+                        if msg.get_buf() != &before.0[..] || msg.get_sig() != before.1 {
+                            out.violation("illformed-param", &format!("a refused push_old_param left bytes or signature behind: {}", tag));
+                        }
+                        if !*must_refuse {
+                            out.violation("illformed-param", &format!("push_old_param refused a legal value: {}", tag));
+                        }
+                    }
+                    Ok(Ok(())) => {
+                        if *must_refuse {
+                            out.violation("illformed-param", &format!("push_old_param accepted a value without a valid encoding: {}", tag));
+                        }
+                        let v = guard(|| msg.body.validate());
+                        if !matches!(v, Ok(Ok(()))) {
+                            out.violation("illformed-param", &format!("the library accepted {} for sending but its own validator refuses the bytes: {:?}", tag, v));
+                        }
+                        let g = guard(|| {
+                            let mut parser = msg.body.parser();
+                            for _ in 0..phase {
+                                let _ = parser.get::<u8>();
+                            }
+                            parser.get_param().map(|x| from_param(&x, &|_| 0))
+                        });
+                        match g {
+                            Ok(Ok(val)) => {
+                                if val != from_param(p, &|_| 0) {
+                                    out.violation("illformed-param", &format!("{} does not read back as itself", tag));
+                                }
+                            }
+                            other => out.violation("illformed-param", &format!("the library accepted {} for sending but cannot read it back: {:?}", tag, other.map(|x| x.map(|_| ())))),
+                        }
+                    }
+                }
+                out.hit(if *must_refuse { "param_without_encoding" } else { "param_deepest_legal" });
+            }
+        }
+    }
+    // 5. typed API: a variant whose content signature is not valid because it nests 33 arrays (the limit is 32): refused,
+    //    not asserted; 32 arrays are fine and read back
+    type V4<T> = Vec<Vec<Vec<Vec<T>>>>;
+    type V16<T> = V4<V4<V4<V4<T>>>>;
+    type V32 = V16<V16<u8>>;
+    type V33 = Vec<V32>;
+    let deep32: V32 = Vec::new();
+    let deep33: V33 = Vec::new();
+    for bo in ORDERS {
+        let mut buf = Vec::new();
+        let mut fds = Vec::new();
+        let r = guard(|| {
+            let mut ctx = MarshalContext { buf: &mut buf, fds: &mut fds, byteorder: bo };
+            deep33.marshal_as_variant(&mut ctx)
+        });
+        if !matches!(r, Ok(Err(_))) {
+            out.violation("illformed-param", &format!("marshal_as_variant of a value whose signature nests 33 arrays: {:?} -> {}", r.map(|x| x.is_ok()), hex(&buf)));
+        }
+        let mut msg = MarshalledMessage::with_byteorder(bo);
+        let r = guard(|| msg.body.push_variant(&deep33));
+        if !matches!(r, Ok(Err(_))) || !msg.get_buf().is_empty() {
+            out.violation("illformed-param", &format!("push_variant of a value whose signature nests 33 arrays: {:?}, body {}", r.map(|x| x.is_ok()), hex(msg.get_buf())));
+        }
+        let pvar = rustbus::params::Variant { sig: <V33 as rustbus::Signature>::signature(), value: rustbus::params::Param::Container(rustbus::params::Container::Array(rustbus::params::Array { element_sig: <V32 as rustbus::Signature>::signature(), values: vec![] })) };
+        let mut msg = MarshalledMessage::with_byteorder(bo);
+        let r = guard(|| msg.body.push_param(&pvar));
+        if !matches!(r, Ok(Err(_))) || !msg.get_buf().is_empty() {
+            out.violation("illformed-param", &format!("push_param(&params::Variant) whose signature nests 33 arrays: {:?}, body {}", r.map(|x| x.is_ok()), hex(msg.get_buf())));
+        }
+        let mut msg = MarshalledMessage::with_byteorder(bo);
+        let r = guard(|| msg.body.push_variant(&deep32));
+        let ok = matches!(r, Ok(Ok(()))) && matches!(guard(|| msg.body.validate()), Ok(Ok(())));
+        if !ok {
+            out.violation("illformed-param", "push_variant of a value whose signature nests 32 arrays was refused or does not validate");
+        }
+        out.hit("variant_signature_nesting_limit");
+    }
+    let _ = rng;
 }
